@@ -196,6 +196,18 @@ pub fn build_corpus() -> Vec<Seed> {
         name: "features.ans".into(),
         bytes: b"\x1b[2J\x1b[1;1H\x1b[1;31mHello\x1b[0m\r\n\x1bPq#1;2;100;0;0#1~~~~-~~~~\x1b\\\x1bP1;0;0!zmacro\x1b\\\x1b[1*z\x1b]8;;http://x\x1b\\link\x1b]8;;\x1b\\\x1b[38;5;200mX\x1b[1;24;12;200tY\r\n".to_vec(),
     });
+    // an ANSI file with several sixel pictures: two small ones side by side, a big one over both, one more beside them, and
+    // the big one again (the loader hands finished decodes over and drops pictures a newer one covers)
+    seeds.push(Seed {
+        api: "buf".into(),
+        ext: "ans".into(),
+        name: "sixels.ans".into(),
+        bytes: {
+            let small = |col: u8| format!("\x1bPq\"1;1;6;6#{col};2;100;0;0#{col}!6~\x1b\\");
+            let big = "\x1bPq\"1;1;40;18#3;2;0;100;0#3!40~-!40~-!40~\x1b\\";
+            format!("\x1b[2;2H{}\x1b[2;4H{}\x1b[1;1H{big}\x1b[2;30H{}\x1b[1;1H{big}\x1b[10;1Htext\r\n", small(1), small(2), small(4)).into_bytes()
+        },
+    });
     // the PETSCII (.seq) writer is unimplemented in the engine ("not implemented!"), so this seed is hand-made:
     // colour codes, reverse on/off, cursor keys, clear/home, shifted and unshifted ranges, every byte once
     seeds.push(Seed {
